@@ -217,6 +217,53 @@ func CheckC12(e *fw.Env, l *Lab) {
 	if e.Shard == 1 || (e.Shards == 1) {
 		statsHistoryT(e)
 	}
+	if e.Shard == 3%e.Shards {
+		seededLedgerC12(e)
+	}
+}
+
+// seededLedgerC12: a chain that starts from a genesis with more statistics entries than any
+// default page size (100); the history continues from those totals.
+func seededLedgerC12(e *fw.Env) {
+	sh := NewShadow()
+	var amounts, counts []string
+	n := 130
+	for k := 0; k < n; k++ {
+		ch := fmt.Sprintf("channel-%d", []int{0, 1, 2, 3, 40, 41, 42}[k%7])
+		dp, dn := []int{2, 3}[k%2], []string{"PROTOCOL_CCTP", "PROTOCOL_HYPERLANE"}[k%2]
+		cp := fmt.Sprint(k / 7)
+		denom := []string{"uusdc", "uusdn"}[(k/2)%2]
+		in, out := big.NewInt(int64(1_000_000+k)), big.NewInt(int64(900_000+k))
+		ck := fmt.Sprintf("1|%s|%d|%s", ch, dp, cp)
+		ak := ck + "|" + denom
+		if sh.In[ak] != nil {
+			continue
+		}
+		sh.In[ak], sh.Out[ak], sh.Fees[ak] = in, out, new(big.Int).Sub(in, out)
+		amounts = append(amounts, fmt.Sprintf(`{"source_id":{"protocol_id":"PROTOCOL_IBC","counterparty_id":"%s"},"destination_id":{"protocol_id":"%s","counterparty_id":"%s"},"denom":"%s","amount_dispatched":{"incoming":"%s","outgoing":"%s"}}`, ch, dn, cp, denom, in, out))
+		if _, ok := sh.Count[ck]; !ok {
+			sh.Count[ck] = uint64(1 + k)
+			counts = append(counts, fmt.Sprintf(`{"source_id":{"protocol_id":"PROTOCOL_IBC","counterparty_id":"%s"},"destination_id":{"protocol_id":"%s","counterparty_id":"%s"},"count":"%d"}`, ch, dn, cp, 1+k))
+		}
+	}
+	gen := fmt.Sprintf(`{"adapter_genesis":{"params":{"max_passthrough_payload_size":0}},"dispatcher_genesis":{"dispatched_amounts":[%s],"dispatched_counts":[%s]},"forwarder_genesis":{"paused_protocol_ids":[],"paused_cross_chain_ids":[]},"executor_genesis":{"paused_action_ids":[]}}`,
+		strings.Join(amounts, ","), strings.Join(counts, ","))
+	l, err := NewLab(world.Config{OrbiterGenesis: []byte(gen)})
+	if err != nil {
+		e.Res.Inconc("seeded-ledger world: %v", err)
+		return
+	}
+	hist := map[string]any{"genesis": fmt.Sprintf("%d amount entries, %d count entries", len(amounts), len(counts))}
+	e.Res.Eval()
+	if !CompareStats(e.Res, l.W, l.Base, sh, hist) {
+		return
+	}
+	ctx, _ := l.Base.CacheContext()
+	History(e, l, ctx, sh, 150, 5, func(step int, trail []HistOp) bool {
+		return CompareStats(e.Res, l.W, ctx, sh, map[string]any{"genesis": hist["genesis"], "step": step, "last_ops": trail})
+	})
+	e.Res.Sig("seeded-ledger|entries=%d", len(sh.In))
+	e.Res.CountN("seeded-ledger-entries-at-end", len(sh.In))
 }
 
 // statsOverflowScenario recirculates ubig so that one route's cumulative incoming total passes
